@@ -34,7 +34,10 @@ class Boom(Exception):
 
 
 EXC_CLASSES = {"Boom": None, "AttributeError": AttributeError, "TypeError": TypeError, "KeyError": KeyError,
-               "ValueError": ValueError, "RuntimeError": RuntimeError, "TransportError": "suds.transport"}
+               "ValueError": ValueError, "RuntimeError": RuntimeError, "TransportError": "suds.transport",
+               # (errors of the I/O family raised by a hook are the hook's errors too: they reach the caller)
+               "OSError": OSError, "ConnectionResetError": ConnectionResetError, "TimeoutError": TimeoutError,
+               "FileNotFoundError": FileNotFoundError}
 
 
 def expand(spec):
